@@ -129,6 +129,34 @@ func main() {
 		os.Exit(runDumpFn(os.Args[2], os.Args[3]))
 	case "replay":
 		os.Exit(runReplay(os.Args[2:]))
+	case "params":
+		// maintenance: print "file<TAB>line<TAB>function<TAB>p1, p2, ..." for every verified contract
+		seen := map[string]bool{}
+		for id, ps := range props {
+			if ps.Pre != nil {
+				continue
+			}
+			p, err := loadProgram(repoDir, ps.Patterns, nil)
+			if err != nil {
+				fmt.Fprintln(os.Stderr, err)
+				os.Exit(2)
+			}
+			_ = id
+			for _, cf := range p.conFiles {
+				for _, c := range cf.Contracts {
+					fn := p.fns[c.Full]
+					if c.Assumed || fn == nil || seen[c.File+c.FuncName] {
+						continue
+					}
+					seen[c.File+c.FuncName] = true
+					var ns []string
+					for _, prm := range fn.Params {
+						ns = append(ns, prm.Name())
+					}
+					fmt.Printf("%s\t%d\t%s\t%s\n", c.File, c.Line, c.FuncName, strings.Join(ns, ", "))
+				}
+			}
+		}
 	case "list":
 		var ids []string
 		for id := range props {
